@@ -3,10 +3,15 @@
 its private copy) into known_findings.json: entries with an existing id REPLACE it, commit shas are remapped (cherry-picks)."""
 import json, sys
 frag = json.load(open(sys.argv[1]))
+remove = [r["id"] if isinstance(r, dict) else r for r in (frag.get("remove", []) if isinstance(frag, dict) else [])]
 frag = frag["findings"] if isinstance(frag, dict) else frag
 remap = dict(a.split("=") for a in sys.argv[2:])
 p = __import__("os").path.join(__import__("os").path.dirname(__file__), "..", "known_findings.json")
 d = json.load(open(p))
+for r in remove:            # entries the response withdraws (false alarms: the oracle no longer reports them)
+    n = len(d["findings"])
+    d["findings"] = [x for x in d["findings"] if x["id"] != r]
+    print("removed" if len(d["findings"]) < n else "not-present", r)
 idx = {x["id"]: i for i, x in enumerate(d["findings"])}
 for x in frag:
     for o, n in remap.items():
